@@ -232,7 +232,12 @@ func (v *aBasic) Bin() (b []byte) {
 
 	case *U64:
 		b = make([]byte, 8)
-		i, _ := strconv.ParseUint(v.Name(), 0, 64)
+		i, err := strconv.ParseUint(v.Name(), 0, 64)
+		if err != nil {
+			// constants >= 1<<63 are written in their signed form
+			s, _ := strconv.ParseInt(v.Name(), 0, 64)
+			i = uint64(s)
+		}
 		si := uint64(i)
 		b[0] = byte(si & 0xFF)
 		b[1] = byte((si >> 8) & 0xFF)
@@ -245,7 +250,7 @@ func (v *aBasic) Bin() (b []byte) {
 
 	case *I64:
 		b = make([]byte, 8)
-		i, _ := strconv.ParseInt(v.Name(), 0, 6)
+		i, _ := strconv.ParseInt(v.Name(), 0, 64)
 		si := uint64(int64(i))
 		b[0] = byte(si & 0xFF)
 		b[1] = byte((si >> 8) & 0xFF)
